@@ -219,6 +219,9 @@ func runDotText(c *Ctx) *Violation {
 	if v := dotTextAST(c, doc, next, want); v != nil {
 		return v
 	}
+	if v := dotTextFaultyDestination(c); v != nil {
+		return v
+	}
 	return c.Guard("UnmarshalMulti/edge-statements", func() string { return doc }, func() *Violation {
 		dst := dtGraph{multi.NewDirectedGraph()}
 		err := dot.UnmarshalMulti([]byte(doc), dst)
@@ -476,6 +479,175 @@ func dotTextAST(c *Ctx, doc string, nNodes int, want map[string]int) *Violation 
 			if n != nNodes || l != wantLines {
 				return viol("dot-text/UnmarshalMulti/variant-topology", "%s decodes to %d nodes and %d lines, the document means %d nodes and %d lines\n%s", v.what, n, l, nNodes, wantLines, v.text)
 			}
+		}
+		return nil
+	})
+}
+
+// ---- destinations that refuse, documents that are not one graph ----
+
+var errDotInjected = errors.New("injected setter failure")
+
+// dfCounter fails the at-th setter call made on any element of one destination.
+type dfCounter struct{ at, n int }
+
+func (f *dfCounter) call() error {
+	f.n++
+	if f.n == f.at {
+		return errDotInjected
+	}
+	return nil
+}
+
+type dfNode struct {
+	graph.Node
+	f *dfCounter
+}
+
+func (n *dfNode) SetDOTID(string)                       {}
+func (n *dfNode) SetAttribute(encoding.Attribute) error { return n.f.call() }
+
+type dfLine struct {
+	graph.Line
+	f *dfCounter
+}
+
+func (l *dfLine) SetAttribute(encoding.Attribute) error { return l.f.call() }
+func (l *dfLine) SetFromPort(string, string) error      { return l.f.call() }
+func (l *dfLine) SetToPort(string, string) error        { return l.f.call() }
+
+type dfEdge struct {
+	graph.Edge
+	f *dfCounter
+}
+
+func (e *dfEdge) SetAttribute(encoding.Attribute) error { return e.f.call() }
+func (e *dfEdge) SetFromPort(string, string) error      { return e.f.call() }
+func (e *dfEdge) SetToPort(string, string) error        { return e.f.call() }
+
+type dfMulti struct {
+	*multi.DirectedGraph
+	f *dfCounter
+}
+
+func (g dfMulti) NewNode() graph.Node { return &dfNode{g.DirectedGraph.NewNode(), g.f} }
+func (g dfMulti) NewLine(from, to graph.Node) graph.Line {
+	return &dfLine{g.DirectedGraph.NewLine(from, to), g.f}
+}
+
+type dfSimple struct {
+	*simple.DirectedGraph
+	f *dfCounter
+}
+
+func (g dfSimple) NewNode() graph.Node { return &dfNode{g.DirectedGraph.NewNode(), g.f} }
+func (g dfSimple) NewEdge(from, to graph.Node) graph.Edge {
+	return &dfEdge{g.DirectedGraph.NewEdge(from, to), g.f}
+}
+
+// dotTextFaultyDestination: the destination's attribute and port setters are
+// the decoder's "disk": the k-th call fails. Unmarshal / UnmarshalMulti must
+// return an error (never panic, never succeed), and succeed when no call
+// fails. Documents that are not exactly one
+// graph, or that put a directed edge into an undirected graph, are errors.
+func dotTextFaultyDestination(c *Ctx) *Violation {
+	t := c.T
+	c.Declare("setter_failure_injected", "setter_failure_beyond_last_call", "not_one_graph_document", "directed_edge_in_undirected_graph")
+	nn := 1 + t.Choose(simrt.KWorkload, 3)
+	var stmts []string
+	calls := 0
+	for i := 0; i < nn; i++ {
+		if t.Choose(simrt.KWorkload, 2) == 1 {
+			k := 1 + t.Choose(simrt.KWorkload, 2)
+			var as []string
+			for j := 0; j < k; j++ {
+				as = append(as, fmt.Sprintf("k%d=v%d", j, i))
+			}
+			stmts = append(stmts, fmt.Sprintf("\tm%d [%s];", i, strings.Join(as, ", ")))
+			calls += k
+		} else {
+			stmts = append(stmts, fmt.Sprintf("\tm%d;", i))
+		}
+	}
+	ne := 1 + t.Choose(simrt.KWorkload, 3)
+	pairs := map[[2]int]bool{}
+	for i := 0; i < ne; i++ {
+		a, b := t.Choose(simrt.KValue, nn), t.Choose(simrt.KValue, nn)
+		if a == b || pairs[[2]int{a, b}] {
+			continue
+		}
+		pairs[[2]int{a, b}] = true
+		from, to := fmt.Sprintf("m%d", a), fmt.Sprintf("m%d", b)
+		if t.Choose(simrt.KWorkload, 3) == 2 {
+			from += ":p1"
+			calls++
+		}
+		if t.Choose(simrt.KWorkload, 3) == 2 {
+			to += ":p2:n"
+			calls++
+		}
+		attrs := ""
+		if t.Choose(simrt.KWorkload, 2) == 1 {
+			attrs = " [w=1, c=red]"
+			calls += 2
+		}
+		stmts = append(stmts, fmt.Sprintf("\t%s -> %s%s;", from, to, attrs))
+	}
+	doc := "digraph {\n" + strings.Join(stmts, "\n") + "\n}"
+	at := 1 + t.Choose(simrt.KFault, calls+2)
+	for _, multiDst := range []bool{false, true} {
+		multiDst := multiDst
+		name := "Unmarshal"
+		if multiDst {
+			name = "UnmarshalMulti"
+		}
+		if v := c.Guard(name+"/faulty-destination", func() string { return fmt.Sprintf("setter call %d of %d fails\n%s", at, calls, doc) }, func() *Violation {
+			f := &dfCounter{at: at}
+			var err error
+			if multiDst {
+				err = dot.UnmarshalMulti([]byte(doc), dfMulti{multi.NewDirectedGraph(), f})
+			} else {
+				err = dot.Unmarshal([]byte(doc), dfSimple{simple.NewDirectedGraph(), f})
+			}
+			c.Case("err@k", at <= calls, hashString(doc), uint64(at), uint64(g6b2i(multiDst)))
+			c.Oracle("setter-error-reported")
+			if f.n > calls || (at > calls && f.n != calls) {
+				return viol("dot-text/"+name+"/setter-calls", "the document asks for %d attribute / port setter calls, %s made %d\n%s", calls, name, f.n, doc)
+			}
+			if at <= calls {
+				c.Probe("setter_failure_injected", 1)
+				if err == nil {
+					return viol("dot-text/"+name+"/setter-error-lost", "setter call %d of %d returned an error, %s returned nil\n%s", at, calls, name, doc)
+				}
+				// (attribute setter errors come back with the setter's message,
+				// port setter errors without it: either is "an error")
+				return nil
+			}
+			c.Probe("setter_failure_beyond_last_call", 1)
+			if err != nil {
+				return viol("dot-text/"+name+"/rejected", "a valid DOT document is rejected by %s: %v\n%s", name, err, doc)
+			}
+			return nil
+		}); v != nil {
+			return v
+		}
+	}
+	// not exactly one graph; a directed edge in an undirected graph
+	bad := []string{"", doc + "\n" + doc, "graph {\n\tm0 -> m1;\n}", "graph {\n\tm0 -- {m1 -> m2};\n}"}
+	bi := t.Choose(simrt.KWorkload, len(bad))
+	bdoc := bad[bi]
+	return c.Guard("Unmarshal/not-a-graph", func() string { return bdoc }, func() *Violation {
+		e1 := dot.Unmarshal([]byte(bdoc), dtSimple{simple.NewDirectedGraph()})
+		e2 := dot.UnmarshalMulti([]byte(bdoc), dtGraph{multi.NewDirectedGraph()})
+		c.Case("control", false, hashString(bdoc))
+		c.Oracle("malformed-document-rejected")
+		if bi < 2 {
+			c.Probe("not_one_graph_document", 1)
+		} else {
+			c.Probe("directed_edge_in_undirected_graph", 1)
+		}
+		if e1 == nil || e2 == nil {
+			return viol("dot-text/Unmarshal/malformed-accepted", "Unmarshal = %v, UnmarshalMulti = %v for a document that %s\n%s", e1, e2, []string{"holds no graph", "holds two graphs", "has a directed edge in an undirected graph", "has a directed edge in an undirected graph"}[bi], bdoc)
 		}
 		return nil
 	})
